@@ -70,7 +70,7 @@ CHECKS = {
 }
 
 checks = []
-for pid, c in CHECKS.items():
+for pid, c in sorted(CHECKS.items()):
     checks.append({
         'property_id': pid,
         'quick_cmd': f'/verif/check {pid} quick',
